@@ -1707,7 +1707,30 @@ impl Server {
             None // Unsubscribe from all
         };
         
+        let named = channels.clone();
         let results = self.pubsub.unsubscribe(conn_id, channels)?;
+        
+        // Nothing was removed: the request is still acknowledged, once per name given,
+        // or once with a nil name when no name was given
+        if results.is_empty() {
+            let remaining = self.pubsub.get_subscription_info(conn_id)
+                .map(|info| info.channels.len() + info.patterns.len()).unwrap_or(0);
+            self.connections.with_connection(conn_id, |conn| -> Result<()> {
+                match &named {
+                    Some(chans) => for ch in chans {
+                        conn.send_frame(&format_unsubscribe_response(ch, remaining))?;
+                    },
+                    None => conn.send_frame(&RespFrame::Array(Some(vec![
+                        RespFrame::from_string("unsubscribe"),
+                        RespFrame::null_bulk(),
+                        RespFrame::Integer(remaining as i64),
+                    ])))?,
+                }
+                conn.flush()?;
+                Ok(())
+            });
+            return Ok(RespFrame::NoResponse);
+        }
         
         // Send each unsubscription confirmation atomically
         self.connections.with_connection(conn_id, |conn| -> Result<()> {
@@ -1777,7 +1800,29 @@ impl Server {
             None // Unsubscribe from all patterns
         };
         
+        let named = patterns.clone();
         let results = self.pubsub.punsubscribe(conn_id, patterns)?;
+        
+        // Nothing was removed: still acknowledged (see UNSUBSCRIBE)
+        if results.is_empty() {
+            let remaining = self.pubsub.get_subscription_info(conn_id)
+                .map(|info| info.channels.len() + info.patterns.len()).unwrap_or(0);
+            self.connections.with_connection(conn_id, |conn| -> Result<()> {
+                match &named {
+                    Some(pats) => for pat in pats {
+                        conn.send_frame(&format_punsubscribe_response(pat, remaining))?;
+                    },
+                    None => conn.send_frame(&RespFrame::Array(Some(vec![
+                        RespFrame::from_string("punsubscribe"),
+                        RespFrame::null_bulk(),
+                        RespFrame::Integer(remaining as i64),
+                    ])))?,
+                }
+                conn.flush()?;
+                Ok(())
+            });
+            return Ok(RespFrame::NoResponse);
+        }
         
         // Send each unsubscription confirmation atomically
         self.connections.with_connection(conn_id, |conn| -> Result<()> {
